@@ -98,6 +98,11 @@ func MatchMain(eng *Engine) (bind inputrc.Bind, command func(), prefix bool) {
 }
 
 func (m *Engine) dispatchKeys(binds map[string]inputrc.Bind) (bind inputrc.Bind, prefix bool, read, matched []byte) {
+	// Number of keys of the bind remembered in m.prefixed (a bind that
+	// matched exactly while longer ones were still possible), if any.
+	remembered := 0
+	m.prefixed = inputrc.Bind{}
+
 	for {
 		// Read a single byte from the input buffer.
 		// This mimics the way Bash reads input when the inputrc option `byte-oriented` is set.
@@ -139,11 +144,14 @@ func (m *Engine) dispatchKeys(binds map[string]inputrc.Bind) (bind inputrc.Bind,
 			// used to be PopKey. We don't pop the key unless we have
 			// an empty byte.
 			//
-			// When a shorter bind had matched, this key only ruled the longer
-			// ones out: it is not part of the sequence, and stays on the stack
-			// to be dispatched on its own (eg. ESC then d, read at once in Vim).
-			if m.active.Action != "" && len(read) > 1 {
-				read = read[:len(read)-1]
+			// When a shorter bind had matched, the keys read after its own only
+			// ruled the longer ones out: they are not part of the sequence, and
+			// go back on the stack (the current one never left it) to be dispatched
+			// on their own (eg. ESC then d, read at once in Vim).
+			if m.active.Action != "" && remembered > 0 {
+				core.MatchedKeys(m.keys, nil, read[remembered:len(read)-1]...)
+				read = read[:remembered]
+				matched = read
 			} else {
 				core.PopKey(m.keys)
 			}
@@ -164,6 +172,7 @@ func (m *Engine) dispatchKeys(binds map[string]inputrc.Bind) (bind inputrc.Bind,
 
 			if match.Action != "" {
 				m.prefixed = match
+				remembered = len(read)
 			}
 
 			continue
